@@ -16,7 +16,7 @@
 From Coq Require Import String List ZArith NArith Bool.
 Import ListNotations.
 From Selfies Require Import Base Generated Atoms Grammar Decoder PySet Matching Smiles Kekulize Encoder
-  IndexSpec IndexCode Reader RoundTrip EncoderFacts PureFacts EncHyp EncGood EncAttr EncFaithful EncOrd EncKeep EncRing.
+  IndexSpec IndexCode Reader RoundTrip EncoderFacts PureFacts EncHyp EncGood EncAttr EncFaithful EncOrd EncKeep EncRing EncRingOrd.
 Local Open Scope string_scope.
 
 Definition C03_full_statement : Prop :=
@@ -65,13 +65,32 @@ Proof. vm_compute. reflexivity. Qed.
    bond b of the kekulised graph, its index symbols encode the distance src - dst - 1 between the two atoms, its bond
    prefix rs has the order of b (what the decoder's symbol reader computes from rs), and b sits in the slot of a ring
    bond e0 of the reader's graph whose order it has kept - unless e0 was aromatic, in which case b is single or double.
-   Not covered: that e0's order is the one written at the two ring digits of the SMILES (max of the two, or aromatic). *)
+   That e0's order is the one written at the two ring digits of the SMILES is the next theorem. *)
 Theorem C03_ring_bond_orders_faithful_partial : forall T smiles strict attribute x maps,
   encoder T smiles strict attribute = Ok (x, maps) ->
   exists m0 m tss, smiles_to_mol smiles attribute = Ok m0 /\ x = join (lit ".") (map (@concat N) tss) /\ Forall (TW (ring_back m0 m)) tss.
 Proof. exact encoder_ring_orders. Qed.
 
+(* ring-closure bonds, reader side included (proofs/EncRingOrd.v): the reader stores for a ring bond the order written at a
+   pair of ring-digit tokens of the input with the same label - the larger of the two orders written there, or 1.5 when
+   both atoms are aromatic and neither digit has a bond character (parsed_ring_ords, an invariant of the token loop
+   together with one on the ring log).  Composed with the theorem above: every ring symbol of the output has a bond
+   prefix whose order is the one written at such a pair of digits, or single / double when that was aromatic.
+   Not covered: that the pair of digits is the pair closing between the same two atoms of the input (the atoms are
+   pinned only through the distance encoded in the index symbols, previous theorem). *)
+Theorem C03_ring_bond_orders_as_written_partial : forall T smiles strict attribute x maps ts,
+  encoder T smiles strict attribute = Ok (x, maps) -> tokenize_smiles smiles = Ok ts ->
+  exists tss, x = join (lit ".") (map (@concat N) tss) /\ Forall (TW (ring_written ts)) tss.
+Proof. exact encoder_ring_orders_written. Qed.
+
+Example C03_ring_bond_orders_as_written_example :
+  match encoder default_constraints (lit "C1CCCCC=1.C#1CCCCCCC1") true false with
+  | Ok (x, _) => str_eqb x (lit "[C][C][C][C][C][C][=Ring1][=Branch1].[C][C][C][C][C][C][C][C][#Ring1][Branch2]")
+  | Err _ => false end = true.
+Proof. vm_compute. reflexivity. Qed.
+
 Print Assumptions C03_index_arithmetic_partial.
+Print Assumptions C03_ring_bond_orders_as_written_partial.
 Print Assumptions C03_ring_bond_orders_faithful_partial.
 Print Assumptions C03_chain_bond_orders_faithful_partial.
 Print Assumptions C03_three_symbols_partial.
